@@ -19,13 +19,16 @@ pub mod c09;
 pub mod c10;
 pub mod c11;
 pub mod c12;
+pub mod c13;
 pub mod c14;
 pub mod c15;
 pub mod c16;
+pub mod c17;
 pub mod c18;
+pub mod c19;
 pub mod c20;
 
-pub static ALL: &[Prop] = &[c01::PROP, c02::PROP, c03::PROP, c04::PROP, c05::PROP, c06::PROP, c08::PROP, c09::PROP, c10::PROP, c11::PROP, c12::PROP, c14::PROP, c15::PROP, c16::PROP, c18::PROP, c20::PROP];
+pub static ALL: &[Prop] = &[c01::PROP, c02::PROP, c03::PROP, c04::PROP, c05::PROP, c06::PROP, c08::PROP, c09::PROP, c10::PROP, c11::PROP, c12::PROP, c13::PROP, c14::PROP, c15::PROP, c16::PROP, c17::PROP, c18::PROP, c19::PROP, c20::PROP];
 
 /// Internal sub-commands (child processes of a check).
 pub fn internal(cmd: &str, _args: &[String]) -> Option<i32> {
@@ -33,5 +36,31 @@ pub fn internal(cmd: &str, _args: &[String]) -> Option<i32> {
         "c01-child" => Some(c01::child_main()),
         "c01-stress" => Some(c01::stress_main(_args)),
         _ => None,
+    }
+}
+
+/// Fuzz targets (coverage-guided tier): name -> (property id, sub name, strategy, run).
+/// The strategy is built once per thread.
+pub fn fuzz_entry(target: &str, data: &[u8]) {
+    use crate::engine::{fuzz_one, fuzz_report};
+    macro_rules! t {
+        ($prop:expr, $sub:expr, $ty:ty, $strat:expr, $run:expr) => {{
+            thread_local! { static S: proptest::strategy::BoxedStrategy<$ty> = $strat; }
+            S.with(|st| fuzz_report($prop, $sub, fuzz_one($prop, st, &$run, data)));
+        }};
+    }
+    match target {
+        "c02" => t!("C02", "random", c02::Scenario, c02::strategy(), c02::run),
+        "c03" => t!("C03", "random", c03::Scenario, c03::strategy(), c03::run),
+        "c04" => t!("C04", "random", c04::Scenario, c04::strategy(), c04::run),
+        "c06" => t!("C06", "walk", c06::Scenario, c06::strategy(), c06::run),
+        "c08" => t!("C08", "random", c08::Scenario, c08::strategy(), c08::run),
+        "c09" => t!("C09", "routing", c09::Scenario, c09::strategy(), c09::run),
+        "c10" => t!("C10", "random", c10::Scenario, c10::strategy(), c10::run),
+        "c12" => t!("C12", "pairing", c12::Scenario, c12::strategy(), c12::run),
+        "c15" => t!("C15", "ports", c15::PortScenario, c15::port_strategy(), c15::run_ports),
+        "c16" => t!("C16", "monitors", c16::Scenario, c16::strategy(), c16::run),
+        "c18" => t!("C18", "direct", c18::Scenario, c18::strategy(), c18::run),
+        other => panic!("unknown fuzz target {other}"),
     }
 }
